@@ -7,7 +7,8 @@ PROP = "C02"
 
 
 def is_violation(cls):
-    return cls.startswith("violation:bindings")
+    # the Action ran although the command line has no derivation at all: whatever was bound is not a derivation either
+    return cls.startswith("violation:bindings") or cls.startswith("violation:verdict (library accepted")
 
 
 def run(tier, wd):
@@ -19,7 +20,7 @@ def run(tier, wd):
     q = tier == "quick"
     # (1) bounded exhaustive, alphabet chosen so that many lines are accepted with several bound variables
     specs = g.family(p, 10 if q else 60, seed)
-    alphabet = ["x", " y ", "--", "-ab", "-ov", "-o", "--out=w ", "-a"] if q else ["x", "y", "--", "-ab", "-ov", "-o", "--out=w", "-a", "-eu"]
+    alphabet = ["x", " y ", "--", "-ab", "-ov", "-o", "--out=w ", "-a", "--out"] if q else ["x", "y", "--", "-ab", "-ov", "-o", "--out=w", "-a", "-eu", "--out"]
     triples = rc.enumerate_and_run(rep, wd, binpath, specs, alphabet, [[]] if q else [[], ["-e"]], 3 if q else 4, "enum")
     cnt = collections.Counter()
     nontrivial = set()
@@ -104,7 +105,7 @@ def run(tier, wd):
                        "ambiguous = the reference admits several derivations; (3) every Matcher.Match call of those runs validated against Matchers.tla; "
                        "(4) 7 built-in types x option/argument x 1..3 written values: the variable holds them as read in base 10 (Values.tla)")
     rep.assumptions += ["standard program (see C01), all variables declared with a recording value type, so repeated values and their order are observed",
-                        "verdict disagreements are C01's business and not reported here"]
+                        "a rejection of a line the reference accepts is C01's business and not reported here"]
     return rep.finish()
 
 
